@@ -129,6 +129,10 @@ func (a *Analyzer) findLeaderFns() []*ssa.Function {
 				if _, isConst := idx.(*ssa.Const); isConst {
 					continue
 				}
+				// the (i, j) of a comparator closure handed to sort: not a choice of a member (I3.inplace judges the sort)
+				if pm, isParam := idx.(*ssa.Parameter); isParam && f.Parent() != nil && pm.Parent() == f {
+					continue
+				}
 				rangeIdx := false
 				for _, l := range li.Loops {
 					if l.IndexVal == idx {
